@@ -15,7 +15,7 @@ from ..gen import program as P, randprog
 ID = 'C04'
 LEVEL = 'exploration'
 RULE = ('(a) every 32-bit instruction with literal operands on both sides of every RVC operand-set boundary (register classes '
-        '{0,1,2,7,8,9,15,16,31} squared x 70 boundary immediates, all R-type register triples over 8 classes), embedded 300 per '
+        '{0,1,2,3,7,8,9,15,16,31} squared x 70 boundary immediates, all R-type register triples over 9 classes), embedded 300 per '
         'program and sampled alone; (b) random programs with label-dependent operands, constants / register aliases and label-moving '
         'items; (c) li / call / tail whose second instruction is itself compressible.  Each line of each program pair is one case. '
         'Non-trivial = a line whose compressed build is shorter than its uncompressed build (compression actually happened) or that '
@@ -26,8 +26,8 @@ ASSUMPTIONS = ['reference decoder / ISS per the RISC-V spec; "same meaning" for 
 B = [-2048, -1025, -1024, -513, -512, -496, -257, -256, -255, -254, -130, -128, -65, -64, -48, -33, -32, -31, -17, -16, -15, -8, -5, -4,
      -3, -2, -1, 0, 1, 2, 3, 4, 5, 8, 12, 15, 16, 17, 30, 31, 32, 33, 48, 60, 63, 64, 65, 124, 127, 128, 129, 132, 252, 254, 255, 256,
      258, 260, 496, 508, 511, 512, 1020, 1023, 1024, 1028, 2044, 2046, 2047]
-RC = [0, 1, 2, 7, 8, 9, 15, 16, 31]
-RC8 = [0, 1, 2, 7, 8, 15, 16, 31]
+RC = [0, 1, 2, 3, 7, 8, 9, 15, 16, 31]
+RC8 = [0, 1, 2, 3, 7, 8, 15, 16, 31]
 
 
 def boundary_items():
